@@ -27,11 +27,27 @@ def _at_depth(d, thunk):
     return _at_depth(d - 1, thunk)
 
 
+_HELPERS = {}
+HELPER_FILE = [None]   # file name under which the nesting helper is compiled (C19: where users build plans)
+
+
+def _helper():
+    fn = HELPER_FILE[0]
+    if fn is None:
+        return _at_depth
+    if fn not in _HELPERS:
+        src = "def _at_depth(d, thunk):\n    if d <= 0:\n        return thunk()\n    return _at_depth(d - 1, thunk)\n"
+        ns = {}
+        exec(compile(src, fn, "exec"), ns)
+        _HELPERS[fn] = ns["_at_depth"]
+    return _HELPERS[fn]
+
+
 def _create(d, thunk):
     """Create a symbolic call at helper-nesting depth d (d < 0: no helper frame at all)."""
     if d < 0:
         return thunk()
-    return _at_depth(d, thunk)
+    return _helper()(d, thunk)
 
 
 def make_fn(nid, fname):
@@ -108,6 +124,7 @@ def build(world, with_registry=True, _holder=None):
     b = Built()
     if _holder is not None:
         _holder.append(b)
+    HELPER_FILE[0] = world.get("helper_file")
     plan = b.plan = uberjob.Plan()
     any_reg = any(n.get("store") for n in world["nodes"])
     reg = b.registry = uberjob.Registry() if (any_reg and with_registry) else None
